@@ -491,16 +491,62 @@ func blockClass(bl []string) string {
 	return strings.Join(out, ",")
 }
 
+// Scenarios over the shapes probe (nested lists, struct-field objects, method-bound fields).
+func c06ShapesCases(tier string) []SchedCase {
+	var out []SchedCase
+	// nested lists multiply the threads: one deviation fewer than the property's bound
+	b := 2
+	if tier == "thorough" {
+		b = 3
+	}
+	add := func(q string, p Plan) {
+		out = append(out, SchedCase{Case: Case{Op: Op{Text: q}, Plan: p, Yield: true}, Name: q + " | " + p.Key(), Bound: &b})
+	}
+	add(`{m{grid{colorR} tags}}`, planOf("m.grid", "len1"))
+	add(`{m{grid{id colorR}}}`, planOf("m.grid[1][0].colorR", "error", "m.grid[0]", "null"))
+	add(`{mReq{gridReq{colorR h{methCtxReq}}}}`, planOf("mReq.gridReq", "len1", "mReq.gridReq[0][1].h.methCtxReq", "error"))
+	add(`{ms{kidsPlain{colorR} kidPlain{colorR}}}`, planOf("ms", "len1", "ms[0].kidsPlain[1].colorR", "error", "ms[0].kidPlain.colorR", "error"))
+	add(`{h{methCtx{methCtxReq} methCtxList{methCtxReq meth} methOk}}`, planOf("h.methCtxList[0].methCtxReq", "error"))
+	add(`{mo{sub{colorR}} m{mo{sub{colorR}}}}`, planOf("mo.sub.colorR", "error"))
+	add(`mutation{m1{grid{colorR}} m2{methCtxReq methCtx{methCtxReq}}}`, planOf("m1.grid", "len1"))
+	if tier == "thorough" {
+		add(`{m{grid{grid{id colorR}}}}`, planOf("m.grid", "len1", "m.grid[0][0].grid", "len1"))
+		add(`{box{inner{id ... on N{label}} ... on M{colorR}} node{... on N{label}}}`, planOf("box.inner", "alt", "node", "alt"))
+	}
+	return out
+}
+
+func c05ShapesCases(tier string) []SchedCase {
+	var out []SchedCase
+	// nested lists multiply the threads: one deviation fewer than the property's bound
+	b := 1
+	if tier == "thorough" {
+		b = 2
+	}
+	for _, q := range []string{`{m{grid{colorR}}}`, `{ms{kidsPlain{colorR}}}`, `{h{methCtxList{methCtxReq}}}`} {
+		out = append(out, SchedCase{Case: Case{Op: Op{Text: q}, Yield: true, Cancel: true}, Name: q + " | ", Bound: &b})
+	}
+	out = append(out, SchedCase{Case: Case{Op: Op{Text: `{m{gridReq{grid{id}}}}`}, Plan: planOf("m.gridReq", "len3"), Yield: true}, Name: "nested list fields three levels", DefaultOnly: true})
+	return out
+}
+
 func (s *Shared) schedMain(prop, tier string) {
 	var cases []SchedCase
-	switch prop {
-	case "C06":
+	shapes := s.W.Probe == "shapes"
+	switch {
+	case prop == "C06" && shapes:
+		cases = c06ShapesCases(tier)
+	case prop == "C05" && shapes:
+		cases = c05ShapesCases(tier)
+	case shapes:
+		// no scenarios of this property for the shapes probe
+	case prop == "C06":
 		cases = c06Cases(tier)
-	case "C05":
+	case prop == "C05":
 		cases = c05Cases(tier)
-	case "C04":
+	case prop == "C04":
 		cases = c04Cases(tier)
-	case "C13":
+	case prop == "C13":
 		cases = s.c13Cases(tier)
 	}
 	explore.Main(explore.Options{
